@@ -6,7 +6,9 @@ import PV.Spec.UThread
 `specStep` feeds one event of the history machine to the independent reference: `createBegin` is the
 spec's `create` (the handle exists, with the creator's and the thread's reference, from the moment the
 pointer is allocated), `createEnd`, `start`, `ret` and the two steps of the lazy native-key creation
-are invisible to it, `exit` is `current` followed by the spec's `exit`.  `Obs` is the API-visible
+are invisible to it, `exit` is `current` followed by the spec's `exit`; `createFail` is the spec's `createFailed`; `joinFail` (the native join
+reports an error) answers like `join`: the code recorded so far; `tlsFail` (the native key cannot be made) stores nothing and reads the cell
+as it is; `currentFail` is `createFailed` as well.  `Obs` is the API-visible
 answer of an event — the `r`, `L`, `F`, `D` columns of the differential run: returned ids / join code /
 `get_local` value, live handles, handles released by the event, notifier calls of the event (as a
 sorted list: the order of destructor calls at thread end is unspecified).  `obsM` reads the same
@@ -41,6 +43,10 @@ def specStep (sp : S) : Ev → S × Obs
   | .setLocal t k v => let r := setLocal sp t k v; (r, { live := r.live })
   | .replaceLocal t k v => let r := replaceLocal sp t k v; (r.1, { live := r.1.live, dtor := sortD r.2.dtor })
   | .getLocal t k => (sp, { ret := [sp.cell t k], live := sp.live })
+  | .createFail _ => let r := createFailed sp; (r.1, { live := r.1.live, freed := [r.2] })
+  | .joinFail _ h => (sp, { ret := [join sp h], live := sp.live })
+  | .tlsFail t k g => (sp, { ret := if g then [sp.cell t k] else [], live := sp.live })
+  | .currentFail _ => let r := createFailed sp; (r.1, { live := r.1.live, freed := [r.2] })
 
 /-- live handles of a machine state -/
 def liveOf (s : State) : List Nat := (List.range s.nH).filter fun h => !(s.hdl h).freed
